@@ -21,6 +21,12 @@ def classify(sig, what):
         return 'PB1: a discriminated base type used inside a composition other than a plain property or array property - member of an allOf next to a $ref, top-level array alias, additionalProperties next to declared properties, tuple item - is rendered by templates that treat the interface type like a struct (petField of an embedded member, methods on an interface receiver, pointer to interface, assignment to a getter): generate model exits 0 and the package does not compile (' + body + ': ' + msg + ').'
     if target == 'model' and 'tuple' in body:
         return 'TU1: a map whose values are a tuple (additionalProperties: {type: array, items: [..]}) makes generate model fail with a source-formatting error on its own output (the map value type is rendered empty): a plain valid document is refused (' + body + ').'
+    if target == 'model' and 'enumpair' in body:
+        return 'M4: two enum values that differ only by one punctuation character (' + body + ') mangle to the same Go constant name: "redeclared"; generate model exits 0 and the package does not compile. Only . + - # are spelled out by the generator.'
+    if target == 'model' and 'name-position' in body and kind == 'generate-fails':
+        return 'N3: a property name holding a double quote or a backslash makes generate model crash (nil pointer dereference in loads.Document.Pristine, called by makeCodegenApp): go-openapi/spec OrderSchemaItems.MarshalJSON writes property names into JSON without escaping them, the re-serialised document does not parse, Pristine ignores the error and returns a nil document. Root cause in the dependency; the generator does not guard the call (' + body + ').'
+    if target == 'model' and 'name-position' in body:
+        return 'N1: a property name in a single position (' + body + ') collides with an identifier or method the model templates use (' + msg + '): generate model exits 0 and the package does not compile.'
     if target == 'model' and not body.startswith('name:'):
         if 'undefined' in msg: return 'M3: an enum on a schema nested two anonymous levels deep (items of items, values of a map inside an array/map, a property of an inline allOf member) is validated by calling m.validate<Name>ItemsEnum / ...ValueEnum / validate<Prop>Enum, a method the model template only emits for first-level properties, items and values: "undefined"; generate model exits 0 and the package does not compile (' + body + ').'
         if 'redeclared' in msg: return 'M4: enum values made only of / differing only by punctuation ("<=", "a&b", ...) mangle to the same Go constant name: "redeclared"; generate model exits 0 and the package does not compile (' + body + ').'
@@ -31,6 +37,12 @@ def classify(sig, what):
         if kind == 'generate-fails': return 'CL3: generate cli fails with a source-formatting error on a plain valid document under ' + body + ' (the cli templates emit invalid Go for expanded inline schemas).'
         if 'cannot use' in msg: return 'CL1: the cli templates declare array flag variables / defaults with the wrong Go type ([]interface{} literal as []string default, pointer to slice for strfmt item types): generate cli exits 0, the cli package does not compile (' + body + ').'
         return 'CL2: generate cli exits 0 but the result does not compile (' + msg + ') for ' + body
+    if body.startswith('name-position') and kind == 'generate-fails':
+        return 'N2: a valid document with a parameter name (' + body + ') that contains non-ASCII letters makes generate ' + target + ' fail with a source-formatting error on its own output (' + msg + '): the name manglers cut a multi-byte rune. The property demands success for any name with a letter.'
+    if body.startswith('name-position'):
+        return 'N1: a spec name placed in a single position (' + body + ') collides with an identifier, a predeclared name, a generated method or an imported package name used by the ' + target + ' templates (' + msg + '): the command exits 0 and the generated code does not compile.'
+    if target == 'model' and 'enumpair' in body:
+        return 'M4: two enum values that differ only by one punctuation character (' + body + ') mangle to the same Go constant name: "redeclared"; generate model exits 0 and the package does not compile. Only . + - # are spelled out by the generator.'
     if body.startswith('name:'):
         return 'N1: the spec name ' + body[5:] + ' (placed in every name position) collides with an identifier, a predeclared name or an imported package name used by the ' + target + ' templates (' + msg + '): the command exits 0 and the generated code does not compile. The name de-confliction tables (MangleVarName / reserved words / deconflictPkg) do not cover it.'
     if 'same-name-two-locations' in body or 'punctuation' in body or 'mangle-alike' in body:
